@@ -1,21 +1,12 @@
 use delaunay::core::delaunay_triangulation::DelaunayTriangulation;
-use delaunay::core::triangulation::TopologyGuarantee;
 use delaunay::core::vertex::Vertex;
 use delaunay::geometry::kernel::FastKernel;
 use delaunay::geometry::point::Point;
 use delaunay::geometry::traits::coordinate::Coordinate;
 fn main() {
-    let pts: Vec<[f64; 3]> = vec![[1.,3.,0.],[1.,6.,1.],[3.,2.,3.],[3.,5.,2.],[3.,6.,0.],[4.,1.,1.],[4.,2.,4.]];
-    let vs: Vec<Vertex<f64, i32, 3>> = pts.iter().enumerate().map(|(i, p)| Vertex::new_with_uuid(Point::new(*p), uuid::Builder::from_random_bytes((1000u128 + i as u128).to_le_bytes()).into_uuid(), Some(i as i32))).collect();
-    let dt = DelaunayTriangulation::<FastKernel<f64>, i32, i32, 3>::with_topology_guarantee(&FastKernel::new(), &vs, TopologyGuarantee::PLManifold).unwrap();
-    let keys: Vec<_> = dt.cells().map(|(k, _)| k).collect();
-    for ck in keys {
-        let mut t = dt.tds().clone();
-        t.remove_cells_by_keys(&[ck]);
-        let d2 = DelaunayTriangulation::<FastKernel<f64>, i32, i32, 3>::from_tds_with_topology_guarantee(t, FastKernel::new(), TopologyGuarantee::PLManifold);
-        let v = d2.validate();
-        let r = d2.validation_report();
-        let iv = d2.as_triangulation().is_valid();
-        println!("{ck:?}: tri.is_valid={} validate={} report_empty={}  {}", iv.is_ok(), v.is_ok(), r.is_ok(), v.err().map(|e| format!("{e}").chars().take(80).collect::<String>()).unwrap_or_default());
-    }
+    let pts: Vec<[f64; 2]> = vec![[0.,0.],[1.,0.],[0.,1.]];
+    let vs: Vec<Vertex<f64, i32, 2>> = pts.iter().enumerate().map(|(i, p)| Vertex::new_with_uuid(Point::new(*p), uuid::Builder::from_random_bytes((1000u128 + i as u128).to_le_bytes()).into_uuid(), Some(i as i32))).collect();
+    let dt = DelaunayTriangulation::<FastKernel<f64>, i32, i32, 2>::with_kernel(&FastKernel::new(), &vs).unwrap();
+    println!("{}", serde_json::to_string(dt.tds()).unwrap());
+    println!("{}", serde_json::to_string(&dt).unwrap().chars().take(300).collect::<String>());
 }
